@@ -9,23 +9,39 @@ _filter_revisions_touching_path, _make_delta_filter / _generate_deltas.
 T2 (every run):
   (a) reverse_by_depth and _rebase_merge_depth (pure) against the Lean model on
       generated view lists: merge-sorted shapes, sub-ranges of them and
-      arbitrary depth sequences;
+      arbitrary depth sequences; on the same lists the oracle's specification of
+      the per-file filter (enclosing_expected, stepwise) and its well_nested
+      against the Lean definitions the theorems are about (`enclosingExpected`,
+      `stepwise`, `wellNested`);
   (b) real 2a branches with file contents (BranchBuilder, memory transport;
-      generated histories with merges of merges, criss-cross, ghosts, second
-      roots, files changed on both sides / taken from the other side / kept):
+      generated histories with merges of merges, criss-cross, ghosts — also as
+      left-most parents off the mainline —, second roots, files changed on both
+      sides / taken from the other side / kept):
       _linear_view_revisions, _graph_view_revisions, _calc_view_revisions and
       whole log requests through _DefaultLogGenerator(**make_log_request_dict)
       for sampled (start, end, direction, levels, limit,
       exclude_common_ancestry), and _filter_revisions_touching_path on the real
       per-file graph, against the Lean model (`vd_C25`, built on the shared
-      `mergeSort` of Model/C22.lean).
+      `mergeSort` of Model/C22.lean); the `(ghost, None, None)` tuple of a
+      left-hand walk that runs into a ghost is modelled for
+      _linear_view_revisions (`linearGhost`); calc / log requests whose walk
+      reaches a ghost are answered E:Unsupported by the driver and skipped;
+      every real complete view is checked to be `stepwise` and the Lean
+      `enclosingExpected` is compared with the oracle's on it.
 Oracle (independent of the model, from the raw parent dictionary and the
 external merge_sort numbering): a full log lists every ancestor of the tip
 exactly once with its dotted revno and depth; forward = an independent
 tree-based reverse-by-depth of reverse; levels=1 lists exactly the left-hand
-history; levels=k is the depth<k filter of levels=0; limit n is the n-prefix; a
-mainline range X..Y lists exactly ancestry(Y) - ancestry(left parent of X) in
-merge-sorted order; per-file log: the mainline revisions listed by the
+history; levels=k is the depth<k filter of levels=0; limit n is the n-prefix —
+also together with a range (compared with the unlimited request of the same
+range); a mainline range X..Y lists exactly ancestry(Y) - ancestry(left parent
+of X) in merge-sorted order, its forward listing is the reverse-by-depth of its
+reverse listing, and with levels=1 it lists exactly the left-hand segment at
+depth 0; a range ending at a merged (dotted) revision lists a sub-sequence of
+that set in merge-sorted order containing the whole left-hand segment, the
+same set in both directions; a ghost met by a linear walk is reported as
+(id, None, None) at the end; per-file log: neither generator fails where the
+other lists the history; the mainline revisions listed by the
 per-file-graph generator and by the delta-matching generator are the same, and
 every revision that changed the file (compared with its left parent) is listed.
 
@@ -34,6 +50,9 @@ code *with* the three fixes `fix-1..3` (forward delta matching, a start without
 an end, _is_obvious_ancestor comparing one number); two families remain and are
 classified from the concrete input by file_family():
   delta-matching-stops-at-merged-add, perfile-graph-lists-merge-keeping-this-text.
+New (improvement round, left ghosts switched on): delta-matching-crashes-on-ghost-left-parent —
+Repository.get_revision_deltas asks for the tree of a ghost left-most parent: `log FILE` by delta matching
+(and `log -v`) dies with NoSuchRevision where the per-file graph lists the history.
 
 Mutants this was built against (scratch worktree /var/tmp/wt-C25 with the fixes applied; see report):
   M1 reverse_by_depth: zd_revisions.reverse() dropped                                   -> oracle
@@ -50,7 +69,12 @@ Mutants this was built against (scratch worktree /var/tmp/wt-C25 with the fixes 
   M13 _filter_revisions_touching_path: `node[2] == 0` -> `node[2] <= 1` without merges  -> oracle
   S1 (seeded by the coordinator) _filter_revisions_touching_path: merge stack popped one level instead of truncated
      to the current depth -> oracle (enclosing_expected) on generated nested-merge motifs and the pinned corpus case
+  M14 _calc_view_revisions: a forward *range* is plainly reversed instead of reversed by depth  -> oracle (forward
+      range vs reverse-by-depth of the reverse listing; before: set comparison only)
+  M15 iter_log_revisions: the limit is ignored when a start revision is given            -> oracle (limit + range)
+  M16 _linear_view_revisions: the ghost tuple is yielded with depth 0                    -> oracle (ghost tuple)
   H1 harmless: min() in _rebase_merge_depth replaced by a loop                          -> clean
+  H3 harmless: `found_start = start_rev_id is None` -> `not start_rev_id`                -> clean
   H2 equivalent: reverse_by_depth `val[2] == _depth` -> `<=` (all depths are >= _depth there,
      theorem rbd_core) -> clean
 """
@@ -61,9 +85,12 @@ from checks import c22
 
 THEOREMS = [
     "rbd_total", "rbd_perm", "rbd_length", "rbd_depth0_reversed", "rebase_shape",
-    "view_complete_once", "forward_is_rbd_of_reverse", "level1_is_lefthand", "levels_is_filter",
-    "limit_is_prefix", "graph_view_sublist", "touching_contains_modified", "touching_members",
-    "pushStack_discipline",
+    "view_complete_once", "forward_is_rbd_of_reverse", "level1_is_lefthand", "level1_numbers_agree_with_full",
+    "level1_range", "levels_is_filter", "limit_is_prefix", "limit_is_prefix_request", "graph_view_sublist",
+    "graph_view_sublist_any", "touching_contains_modified", "touching_members", "pushStack_discipline",
+    "mergeSort_stepwise", "touching_eq_spec", "touching_full_view", "touching_lists_modified",
+    "touching_listed_reason", "touching_sublist",
+    "rbd_involution", "mergeSort_wellNested", "forward_reverse_involution",
 ]
 RULE = ("case = (history DAG with file contents, tip, one request); requests: pure view lists for reverse_by_depth / "
         "_rebase_merge_depth; per history sampled (start, end, direction, levels, limit, exclude_common_ancestry) for the "
@@ -71,6 +98,9 @@ RULE = ("case = (history DAG with file contents, tip, one request); requests: pu
         "non-trivial = the tip's ancestry contains a merged (depth > 0) revision and the reply is not an error; distinct by "
         "canonical (graph, tip, request)")
 ASSUMPTIONS = list(c22.ASSUMPTIONS[:2]) + [
+    "ghosts as left-most parents occur off the mainline only (the branch's own left-hand history never runs into "
+    "one); a calc / log request whose left-hand walk reaches a ghost is outside the model (only "
+    "_linear_view_revisions is modelled there: E:Unsupported, skipped)",
     "levels is an integer (the log command always sets it); exclude_common_ancestry without an end revision is not "
     "requested (find_unique_ancestors(None, ...) raises ValueError; the model answers E:Unsupported)",
 ]
@@ -195,6 +225,10 @@ def pure_part(ctx, n):
         case4 = dict(kind="stepwise", views=[list(v) for v in l])
         ctx.case(case4, nontrivial=any(v[2] for v in l))
         cases.append(case4); lines.append("stepwise " + fmt_views(l)); impls.append("T" if stepwise(l) else "F")
+        # ... and the hypothesis of rbd_involution (`wellNested`) is the oracle's well_nested
+        case5 = dict(kind="wellnested", views=[list(v) for v in l])
+        ctx.case(case5, nontrivial=any(v[2] for v in l))
+        cases.append(case5); lines.append("wellnested " + fmt_views(l)); impls.append("T" if well_nested(l) else "F")
     ctx.diff(cases, lines, impls)
 
 
@@ -838,6 +872,8 @@ def run(ctx, nworlds=None):
         ctx.traces += 1
         if i != m:
             ctx.mismatch(c, i, m, line=l)
+    # unclassified violations first: a pending / known family must not hide them
+    ctx.violations.sort(key=lambda v: v["family"] is not None)
 
 
 def widen(ctx):
@@ -849,10 +885,12 @@ def replay(ctx, case):
     if case.get("kind") == "spec":
         m = ctx.model([case["line"]])[0]
         return dict(impl=case["expect"], model=m, agree=case["expect"] == m)
-    if case.get("kind") in ("enclosing", "stepwise"):
+    if case.get("kind") in ("enclosing", "stepwise", "wellnested"):
         l = [tuple(v) for v in case["views"]]
         if case["kind"] == "stepwise":
             line, impl = "stepwise " + fmt_views(l), "T" if stepwise(l) else "F"
+        elif case["kind"] == "wellnested":
+            line, impl = "wellnested " + fmt_views(l), "T" if well_nested(l) else "F"
         else:
             line = "enclosing %s %s %s" % (",".join(map(str, case["mod"])) or "-", "T" if case["inc"] else "F",
                                            fmt_views(l))
